@@ -16,7 +16,8 @@ RULE = (
     "every LT(n) x every row order (quick: all n! for n<=4, cyclic shifts + reversal for n=5) x 5 id maps "
     "(identity, +1, 10i+3, reversed, scattered) x extra-column sets; oracle: ids 0..n-1, root 0, parents first, "
     "attribute-preserving bijection (recovered from unique tags) that maps parent to parent, idempotence, is_sorted, "
-    "copying forms leave their argument unchanged. Non-trivial = at least 2 nodes."
+    "copying forms leave their argument unchanged; histories: every ordered pair/triple of sorts (4 forms x small trees) with each "
+    "result re-judged after the later sorts. Non-trivial = at least 2 nodes."
 )
 ASSUMPTIONS = [
     "values written to text are exactly representable with 4 decimals, so the file form compares exactly",
@@ -113,6 +114,7 @@ def check_tree_form(case, R):
     if not ok:
         return
     R.check(build.snapshot(t) == snap, "input-modified", f"sort_tree p={p}", "sort_tree:input-modified")
+    R.retain("sort_tree", lambda s1=s1: build.canon_tree(s1))  # a later sort (this case or the next) must not alter this result
     R.check(set(s1.keys()) == set(t.keys()), "columns-lost", f"sort_tree p={p}: {sorted(s1.keys())} vs {sorted(t.keys())}", "sort_tree:columns")
     cols = build.tree_cols(s1)
     if not all(k in cols for k in ["type", "x", "y", "z", "r"] + list(extras)):
@@ -127,6 +129,7 @@ def check_tree_form(case, R):
     # idempotence: same attributed tree, still sorted
     ok, s2 = R.impl("sort_tree(sort_tree)", sort_tree, s1)
     if ok:
+        R.retain("sort_tree(sort_tree)", lambda s2=s2: build.canon_tree(s2))
         c2 = build.tree_cols(s2)
         p1 = [int(i) for i in cols["pid"]]
         rows1 = [{k: cols[k][j] for k in ["type", "x", "y", "z", "r"] + list(extras)} for j in range(n)]
@@ -175,6 +178,7 @@ def check_table_form(case, R):
         R.check({c: df[c].tolist() for c in cols} == before and list(df.columns) == cols, "input-modified", f"sort_nodes p={p} order={order}", "sort_nodes:input-modified")
         R.check(list(out.columns) == cols, "columns-lost", f"sort_nodes columns {list(out.columns)}", "sort_nodes:columns")
         if list(out.columns) == cols:
+            R.retain("sort_nodes", lambda out=out: {c: out[c].tolist() for c in out.columns})
             i_, p_, c_ = as_lists(out)
             if judge(R, "sort_nodes", p, rows, extras, tagged, i_, p_, c_):
                 R.outcome(tuple(p_))
@@ -199,13 +203,85 @@ def check_table_form(case, R):
     if ok:
         fdf, _ = res
         if R.check(list(fdf.columns) == cols, "columns-lost", f"read_swc columns {list(fdf.columns)}", "read_swc:columns"):
+            R.retain("read_swc(sort_nodes=True)", lambda fdf=fdf: {c: fdf[c].tolist() for c in fdf.columns})
             i_, p_, c_ = as_lists(fdf)
             judge(R, "read_swc(sort)", p, rows, extras, tagged, i_, p_, c_)
     if not extras:
         ok, t = R.impl("Tree.from_swc(sort_nodes=True)", lambda: Tree.from_swc(io.StringIO(text), sort_nodes=True))
         if ok:
+            R.retain("Tree.from_swc(sort_nodes=True)", lambda t=t: build.canon_tree(t))
             c_ = build.tree_cols(t)
             judge(R, "Tree.from_swc(sort)", p, rows, (), tagged, [int(i) for i in c_["id"]], [int(i) for i in c_["pid"]], c_)
+
+
+# ------------------------------------------------------------------ histories of sorts
+
+FORMS = ("tree", "table", "table-inplace", "file")
+
+
+def _do_sort(R, form, p, rows):
+    """One sort on a fresh input; returns a reader () -> (ids, pids, cols) of the RESULT object, or None."""
+    import pandas as pd
+
+    from swcgeom.core import sort_tree
+    from swcgeom.core.swc_utils import read_swc, sort_nodes, sort_nodes_
+
+    n = len(p)
+    if form == "tree":
+        t = build.make_tree(p, xyz=[(rows[i]["x"], rows[i]["y"], rows[i]["z"]) for i in range(n)], r=[rows[i]["r"] for i in range(n)],
+                            types=[rows[i]["type"] for i in range(n)])
+        ok, out = R.impl("sort_tree", sort_tree, t)
+        if not ok:
+            return None
+
+        def read(out=out):
+            c = build.tree_cols(out)
+            return [int(i) for i in c["id"]], [int(i) for i in c["pid"]], c
+        return read
+    idmap = id_map("10i+3", n)
+    order = list(range(n - 1, -1, -1))
+    trows = make_rows(p, order, idmap, rows, ())
+    cols = ["id", "type", "x", "y", "z", "r", "pid"]
+    if form == "file":
+        text = "".join(" ".join(_fmt(d[c]) for c in cols) + "\n" for d in trows)
+        ok, res = R.impl("read_swc(sort_nodes=True)", lambda: read_swc(io.StringIO(text), sort_nodes=True))
+        if not ok:
+            return None
+        out = res[0]
+    else:
+        df = pd.DataFrame({c: [d[c] for d in trows] for c in cols})
+        if form == "table":
+            ok, out = R.impl("sort_nodes", sort_nodes, df)
+        else:
+            ok, _ = R.impl("sort_nodes_", sort_nodes_, df)
+            out = df
+        if not ok:
+            return None
+
+    def read_df(out=out):
+        return [int(i) for i in out["id"].tolist()], [int(i) for i in out["pid"].tolist()], {c: out[c].tolist() for c in out.columns}
+    return read_df
+
+
+def check_history(case, R):
+    """A sequence of sorts on different fresh inputs; every result is judged when returned AND again after all
+    later sorts (a result must not change because the library was called again)."""
+    seq = [(f, list(p)) for f, p in case]
+    R.state(seq)
+    live = []
+    for k, (form, p) in enumerate(seq):
+        rows = attrs(len(p), True)
+        rd = _do_sort(R, form, p, rows)
+        if rd is None:
+            continue
+        i_, p_, c_ = rd()
+        good = judge(R, f"history:{form}", p, rows, (), True, i_, p_, c_)
+        if good:
+            live.append((k, form, p, rows, rd))
+        R.outcome(form, tuple(p_))
+    for k, form, p, rows, rd in live[:-1]:
+        i_, p_, c_ = rd()
+        judge(R, f"history:{form}:re-inspected-after-later-sorts", p, rows, (), True, i_, p_, c_)
 
 
 def _fmt(v):
@@ -239,14 +315,32 @@ def spaces(tier, seed):
     def gen_table():
         for n in range(1, tab_hi + 1):
             for p in S.labelled_trees(n):
+                slim = tier == "quick" and n > tab_full  # quick: the largest size only with the two non-monotone id maps and both extras
                 for order in row_orders(n, n <= tab_full):
-                    for mk in ID_MAPS:
-                        for ex in EXTRAS:
+                    for mk in (("10i+3", "reversed") if slim else ID_MAPS):
+                        for ex in ((("a", "b"),) if slim else EXTRAS):
                             yield (p, order, mk, ex, True)
                     yield (p, order, "10i+3", ("a",), False)
 
+    h2 = 4 if tier == "quick" else 5
+    h3 = 3 if tier == "quick" else 4
+
+    def gen_hist():
+        pool2 = [(f, p) for n in range(2, h2 + 1) for p in (S.labelled_trees(n) if n < h2 else S.sorted_trees(n)) for f in FORMS]
+        for a in pool2:
+            for b in pool2:
+                yield (a, b)
+        pool3 = [(f, p) for n in range(3, h3 + 1) for p in S.labelled_trees(n) for f in FORMS]
+        for a in pool3:
+            for b in pool3:
+                for c in pool3:
+                    yield (a, b, c)
+
     return [
+        Space.of("sort-histories", gen_hist, check_history,
+                 bounds={"sequences": f"all ordered pairs of (form, tree) over LT(2..{h2 - 1}) + ST({h2}) x {FORMS}; all ordered triples over LT(3..{h3})"}),
         Space.of("tree-form", gen_tree, check_tree_form, bounds={"LT_max_nodes": tree_hi, "extras": EXTRAS}),
         Space.of("table-and-file-forms", gen_table, check_table_form,
-                 bounds={"LT_max_nodes": tab_hi, "all_row_orders_up_to": tab_full, "id_maps": ID_MAPS, "extras": EXTRAS}),
+                 bounds={"LT_max_nodes": tab_hi, "all_row_orders_up_to": tab_full, "id_maps": ID_MAPS, "extras": EXTRAS,
+                         "largest_size_in_quick": "cyclic shifts + reversal x id maps {10i+3, reversed} x extras (a,b)"}),
     ]
